@@ -541,6 +541,14 @@ impl HashColumn {
 		if tables.ref_count.is_some() {
 			tables.get_ref_count().flush()?;
 		}
+		// Older generations still queued for reindexing are written to as well (an entry found
+		// there is removed in place): their changes must be durable before the log is reused.
+		for entry in self.reindex.read().queue.iter() {
+			match entry {
+				ReindexEntry::Index(index) => index.flush()?,
+				ReindexEntry::RefCount(ref_count) => ref_count.flush()?,
+			}
+		}
 		Ok(())
 	}
 
